@@ -40,6 +40,7 @@ def function_influences(fn):
     for nm, pl in b.dbg:
         if isinstance(pl, list) and isinstance(pl[0], int) and not pl[1] and pl[0] > b.argc and nm != "args" and not nm.startswith("_"):
             names.setdefault(nm, []).append(pl[0])
+    names["<return value>"] = [0]
     for nm, locs in names.items():
         if len(locs) != 1:
             continue            # shadowed names are ambiguous
@@ -101,20 +102,20 @@ def check(ck, F, rule, prefixes, floor):
 
 # property -> prefixes of the functions whose named intermediate values are ratcheted for it, and the instance floor (80% of the reference count)
 SCOPE = {
- 'C01': (['arrow_array::builder', 'arrow_buffer::'], 881),
- 'C02': (['arrow_data::equal', 'arrow_ord::cmp', 'arrow_array::array'], 884),
- 'C03': (['arrow_select::', 'arrow_data::transform'], 823),
- 'C04': (['arrow_ipc::writer', 'arrow_ipc::reader', 'arrow_ipc::convert'], 360),
- 'C07': (['parquet::column::writer', 'parquet::file::writer', 'parquet::arrow::arrow_reader::statistics', 'parquet::file::page_index', 'parquet::bloom_filter', 'parquet::arrow::arrow_writer', 'parquet::file::metadata::writer', 'parquet::file::statistics'], 840),
- 'C08': (['parquet::file::serialized_reader', 'parquet::encodings', 'parquet::arrow::array_reader', 'parquet::arrow::buffer', 'parquet::column::reader', 'parquet::parquet_thrift', 'parquet::file::metadata', 'arrow_csv::reader', 'arrow_json::reader', 'arrow_avro::reader', 'arrow_avro::codec', 'parquet_variant::', 'arrow_ipc::reader', 'arrow_ipc::compression', 'parquet::compression', 'parquet::util::bit_util'], 2540),
- 'C09': (['arrow_data::data', 'arrow_data::byte_view', 'arrow_array::array', 'arrow_buffer::buffer'], 1050),
- 'C10': (['arrow_ord::'], 248),
- 'C11': (['arrow_row::'], 334),
- 'C12': (['arrow_arith::'], 192),
- 'C13': (['arrow_cast::'], 473),
- 'C14': (['arrow_json::reader::tape', 'arrow_csv::reader', 'arrow_ipc::reader::stream', 'arrow_avro::reader'], 434),
- 'C16': (['arrow_buffer::', 'arrow_data::ffi', 'arrow_array::ffi'], 636),
- 'C18': (['arrow_ipc::writer', 'parquet::file::writer', 'parquet::column::writer', 'arrow_csv::writer', 'arrow_json::writer', 'arrow_avro::writer', 'parquet::arrow::arrow_writer'], 970),
+ 'C01': (['arrow_array::builder', 'arrow_buffer::'], 1773),
+ 'C02': (['arrow_data::equal', 'arrow_ord::cmp', 'arrow_array::array'], 1666),
+ 'C03': (['arrow_select::', 'arrow_data::transform'], 1224),
+ 'C04': (['arrow_ipc::writer', 'arrow_ipc::reader', 'arrow_ipc::convert'], 547),
+ 'C07': (['parquet::column::writer', 'parquet::file::writer', 'parquet::arrow::arrow_reader::statistics', 'parquet::file::page_index', 'parquet::bloom_filter', 'parquet::arrow::arrow_writer', 'parquet::file::metadata::writer', 'parquet::file::statistics'], 1612),
+ 'C08': (['parquet::file::serialized_reader', 'parquet::encodings', 'parquet::arrow::array_reader', 'parquet::arrow::buffer', 'parquet::column::reader', 'parquet::parquet_thrift', 'parquet::file::metadata', 'arrow_csv::reader', 'arrow_json::reader', 'arrow_avro::reader', 'arrow_avro::codec', 'parquet_variant::', 'arrow_ipc::reader', 'arrow_ipc::compression', 'parquet::compression', 'parquet::util::bit_util'], 4359),
+ 'C09': (['arrow_data::data', 'arrow_data::byte_view', 'arrow_array::array', 'arrow_buffer::buffer'], 2071),
+ 'C10': (['arrow_ord::'], 376),
+ 'C11': (['arrow_row::'], 491),
+ 'C12': (['arrow_arith::'], 553),
+ 'C13': (['arrow_cast::'], 827),
+ 'C14': (['arrow_json::reader::tape', 'arrow_csv::reader', 'arrow_ipc::reader::stream', 'arrow_avro::reader'], 722),
+ 'C16': (['arrow_buffer::', 'arrow_data::ffi', 'arrow_array::ffi'], 1277),
+ 'C18': (['arrow_ipc::writer', 'parquet::file::writer', 'parquet::column::writer', 'arrow_csv::writer', 'arrow_json::writer', 'arrow_avro::writer', 'parquet::arrow::arrow_writer'], 1594),
 }
 
 
